@@ -209,7 +209,8 @@ def r1(ctx: Ctx, run: FuncInfo, fl, loop) -> None:
     for c in cfl.calls('get_all_rules'):
         if c.args:
             a = cfl.atoms(c.args[0], c)
-            ok = 'key:config:_merchants_file' in a or 'name:new_file' in a
+            # the configured file, or the file the migration has just written into this budget's config directory
+            ok = 'key:config:_merchants_file' in a or 'name:new_file' in a or ("const:'merchants.rules'" in a and 'param:config_dir' in a)
             ctx.check(ok, 'C11.R1', cm, f'wire:rules-path:{src(c.args[0])}', 'get_all_rules reads the configured merchants file', f'get_all_rules({src(c.args[0])}) does not read the configured file', c)
     # supplemental sources skipped, in both places
     # decided on the guards of the statement that collects / stores, so `if supplemental: continue` and `if not supplemental: <collect>` are the same
